@@ -108,14 +108,14 @@ def run(chk):
                     rets = ('vector', 'scalar0d', 'pyscalar')
                     if cond == 'dirichlet':
                         variants += [(1, None, r) for r in rets]
-                        variants += [(2, None, 'vector'), (2, 1, 'vector')]
+                        variants += [(2, None, 'vector'), (2, 1, 'vector'), (2, -1, 'vector')]     # -1: the last component
                         # a length-one array must behave like the scalar it holds, also when several components are selected
                         variants += [(2, None, 'len1'), (3, slice(0, 2), 'len1')]
                         if thorough:
                             variants += [(2, slice(1, 2), r) for r in rets] + [(3, slice(0, 2), 'vector')]
                     else:
                         variants += [(1, None, r) for r in rets]
-                        variants += [(2, slice(1, 2), 'vector')]
+                        variants += [(2, slice(1, 2), 'vector'), (2, -1, 'vector')]
                         if thorough:
                             variants += [(2, 0, 'vector'), (3, slice(2, 3), 'scalar0d')]
                     for m_u, dim, ret in variants:
